@@ -158,8 +158,11 @@ claim("C06", "proof",
       "Lean 4 theorems (Props/C06.lean, corollaries of C16): for every prime p > 2 and all operands the operator transfer of value "
       "propagation yields exactly the field element / truth value Circom defines (arithmetic, bitwise, comparisons on signed "
       "representatives, boolean connectives, negation, 256-bit complement), yields a value for the partial operators (/, \\, %, <<, >>) only "
-      "where the specification defines one and then that value, and never claims anything from an unknown operand. PARTIAL: the lifting to "
-      "whole expressions and all execution paths is not yet a Lean theorem; it is decided per run by (L2) node-by-node equality of the real "
+      "where the specification defines one and then that value, and never claims anything from an unknown operand. Expression and statement "
+      "level: for every expression, abstract environment and concrete environment agreeing with it, every claim propagate_values writes on "
+      "any node is the value that node has (C06_expr_sound, mutual induction over all expression forms incl. the short-circuit flags), "
+      "propagation changes annotations only, and a substitution keeps the environment in agreement incl. add_variable's non-constant rule "
+      "(C06_stmt_sound). PARTIAL: the lifting to all execution paths (and phi claims) is not a Lean theorem; it is decided per run by (L2) node-by-node equality of the real "
       "value annotations with the Lean operational propagation model for each of the three primes and (L1) a reference interpreter executing "
       "the same SSA CFGs under random valuations (every value an annotated node takes must be the claimed constant; invalid executions — "
       "division by zero, failed assert, signal assigned twice — carry no obligation). Known finding F-C06-phi (hypothesis PhiComplete) is "
